@@ -107,6 +107,12 @@ func StartCanary() *Canary {
 	return c
 }
 
+// Settle gives the canary goroutine a moment to record an oversleep that has
+// just ended (after a freeze of the whole process the judging goroutine may
+// run before the canary does). Call it before reading the canary when a time
+// bound looks exceeded.
+func (c *Canary) Settle() { time.Sleep(3 * time.Millisecond) }
+
 // Max returns the worst oversleep so far.
 func (c *Canary) Max() time.Duration { return time.Duration(c.max.Load()) }
 
